@@ -7,6 +7,7 @@ import Proofs.WholeDiff
 import Proofs.WholeDiffWidth
 import Proofs.Machine.HunkNames
 import Proofs.Machine.HunkRowsShape
+import Proofs.WholeDiffSbsRead
 /-!
 C05 — displayed line numbers are the true old/new file line numbers.
 
@@ -444,6 +445,136 @@ example : runWhole 32 [.names "a" "a", .header "@@ -1 +1 @@".toList, .names "b" 
     .header "@@ -5 +6 @@".toList] = .ok [] := by rfl
 
 end WholeDiffs
+
+-- whole diffs in the side-by-side view --------------------------------------------------------------------
+
+section WholeDiffsSbs
+open LineNumbers.Whole LineNumbers.WholeSbs
+
+/-- **Whole input, side-by-side view: every row of every hunk of every file shows true numbers, counted from the
+    hunk's own header.** For every `line-buffer-size`, every alignment function `al` (the line alignment of a subhunk
+    as a function of its buffered removed / added lines — `get_diff_style_sections(&lines, config)` in the source —
+    that uses every line once and in order: `ValidAlign`), and every two-way diff — any number of file sections, each
+    with any number of hunks `@@ -a[,b] +c[,d] @@frag` followed by their lines, each line with its kind, the number of
+    display rows it wraps into (≥ 1, any) and whether its state keeps the raw line — the run of the model of
+    `handle_hunk_header_line` / `handle_hunk_line` / `emit_hunk_header_line` / `initialize_hunk` with the
+    side-by-side painters (`paint_buffered_minus_and_plus_lines` → `paint_minus_and_plus_lines_side_by_side`,
+    `paint_zero_line` → `paint_zero_lines_side_by_side`; statement orders, branches, call arguments regenerated) ends
+    without panic, and what its rows show is `DiffShown`: file by file, hunk by hunk (`HunkShown`),
+    * the hunk-header row with the path of **that** file and `c` of **that** header, then
+    * `specRows al a c bs` for a sequence `bs` of blocks — unchanged lines and flushed subhunks — whose lines are
+      exactly the hunk's lines in input order (`flatAll bs = h.lines`): every block starts at
+      `a + #old-file lines before it in this hunk` / `c + #new-file lines before it`
+      (`sbs_block_starts_at_true_numbers`), an unchanged line shows both numbers on its first row, in a subhunk the
+      first row of removed line `i` shows `start + i` in the left cell, of added line `j` `start + j` in the right
+      cell, continuation rows and the empty half of an unpaired row show nothing (`sbsSpec`, as in
+      `sbs_numbers_true`) — all stamped with the width of **this** header and the plus-file of **this** file.
+    Where the flushes fall (`line-buffer-size`, a removed line after an added one, an unchanged line, the next
+    header, the next file, the end of input) changes `bs` but not these facts; `whole_diff_sbs_row_reading` gives the
+    reading that does not mention `bs`. -/
+theorem whole_diff_numbers_true_sbs (bufSize : Nat) (al : AlignOf) (hal : ValidAlign al) (fs : List SFileSec)
+    (hw : ∀ f ∈ fs, ∀ h ∈ f.hunks, h.wf) :
+    ∃ rows, runWholeSbs bufSize al (diffItemsS fs) = .ok rows ∧ DiffShown al fs (rows.map view) :=
+  runWholeSbs_spec bufSize al hal fs hw
+
+/-- **How to read `HunkShown`, without the blocks**: the first row is the header row (path of the file — the minus
+    file for `/dev/null` —, new-file start of this header); in the rows after it, whatever the flush points, the
+    alignments and the rows per line, the left cells that show a number show — top to bottom — `a, a+1, …`, one per
+    removed / unchanged line of the hunk, the right cells `c, c+1, …`, one per added / unchanged line; every other
+    cell (continuation rows of wrapped lines, the empty half of unpaired rows) is blank; every row is stamped with
+    this header's width and this file's plus-file name. -/
+theorem whole_diff_sbs_row_reading (al : AlignOf) (hal : ValidAlign al) (mf pf : String) (h : SHunk) (v : List SView)
+    (hv : HunkShown al mf pf h v) :
+    ∃ nums : List NumRow,
+      v = .header (if pf = "/dev/null" then mf else pf) h.c :: nums.map (fun x => SView.line (some x) h.width pf) ∧
+      lefts nums = List.range' h.a (cntOld h.lines) ∧ rights nums = List.range' h.c (cntNew h.lines) := by
+  obtain ⟨bs, hflat, _, rfl⟩ := hv
+  refine ⟨specRows al h.a h.c bs, by simp [hunkView, headerPath_eq], ?_, ?_⟩
+  · rw [(specRows_numbers al hal bs h.a h.c).1, hflat]
+  · rw [(specRows_numbers al hal bs h.a h.c).2, hflat]
+
+/-- **Every block is shown from the true numbers of its first lines**: in the rows of a hunk painted as the blocks
+    `xs ++ b :: ys`, the rows of `b` are `blockSpec` (the specification of `sbs_numbers_true` / `sbs_zero_line_true`)
+    started at `a + #{old-file lines of the hunk before b}` and `c + #{new-file lines before b}`. -/
+theorem sbs_block_starts_at_true_numbers (al : AlignOf) (a c : Nat) (xs ys : List SBlock) (b : SBlock) :
+    specRows al a c (xs ++ b :: ys) =
+      specRows al a c xs ++ blockSpec (a + cntOld (flatAll xs)) (c + cntNew (flatAll xs)) (b.toBlock al) ++
+        specRows al (a + cntOld (flatAll (xs ++ [b]))) (c + cntNew (flatAll (xs ++ [b]))) ys := by
+  have e : xs ++ b :: ys = (xs ++ [b]) ++ ys := by simp
+  rw [e, specRows_append, specRows_append, (cnt_flatAll al xs).1, (cnt_flatAll al xs).2,
+    (cnt_flatAll al (xs ++ [b])).1, (cnt_flatAll al (xs ++ [b])).2]
+  simp [specRows, blocksOf, hunkSpec]
+
+/-- **Which painter a flush reaches, read off the source**: `paint_buffered_minus_and_plus_lines` returns at once when
+    both buffers are empty, otherwise hands BOTH buffers (one subhunk) and the painter's line-number data to
+    `paint_minus_and_plus_lines` and then clears both; that function consults the view only in its final
+    `if config.side_by_side`, whose then-branch calls `paint_minus_and_plus_lines_side_by_side` with the line
+    alignment — computed from the buffered lines and the configuration alone — and the same line-number data;
+    `paint_zero_line` branches on the same flag to `paint_zero_lines_side_by_side`, with the same data. -/
+theorem sbs_flush_dispatch_of_source :
+    Generated.SbsDispatch.bufferedOrder =
+      ["return_if_both_empty", "paint_minus_and_plus_lines", "clear_minus_lines", "clear_plus_lines"] ∧
+    Generated.SbsDispatch.bufferedArgs.take 2 =
+      ["MinusPlus::new(&self.minus_lines, &self.plus_lines)", "&mut self.line_numbers_data"] ∧
+    (Generated.SbsDispatch.minusPlusBranch.1, Generated.SbsDispatch.minusPlusBranch.2.1) =
+      ("config.side_by_side", "side_by_side::paint_minus_and_plus_lines_side_by_side") ∧
+    "line_alignment" ∈ Generated.SbsDispatch.minusPlusSbsArgs ∧
+    "line_numbers_data" ∈ Generated.SbsDispatch.minusPlusSbsArgs ∧
+    Generated.SbsDispatch.alignmentSource = "get_diff_style_sections(&lines, config)" ∧
+    (Generated.SbsDispatch.zeroBranch.1, Generated.SbsDispatch.zeroBranch.2.1) =
+      ("self.config.side_by_side", "side_by_side::paint_zero_lines_side_by_side") ∧
+    Generated.SbsDispatch.zeroSbsLineNumbers = "&mut self.line_numbers_data.as_mut()" ∧
+    (∀ b, painterKnown b = true) := by
+  refine ⟨rfl, rfl, rfl, by decide, by decide, rfl, rfl, rfl, painterKnown_all⟩
+
+/-- two files, three hunks: in the first an unchanged line wrapped into 2 rows, a removed line wrapped into 3 rows
+    paired with an added line of 1 row, an unpaired removed line kept raw; the second omits both counts and has more
+    added than removed lines; the third belongs to a deleted file and needs seven digits -/
+def wholeSampleSbs : List SFileSec :=
+  [⟨"src/a.rs", "src/a.rs",
+     [⟨119, some 3, 120, some 2, " fn f(".toList,
+        [(.ctx, ⟨2, false, 0⟩), (.minus, ⟨3, false, 1⟩), (.minus, ⟨1, true, 2⟩), (.plus, ⟨1, false, 3⟩)]⟩,
+      ⟨7, none, 9, none, [], [(.minus, ⟨1, false, 4⟩), (.plus, ⟨2, false, 5⟩), (.plus, ⟨1, false, 6⟩)]⟩]⟩,
+   ⟨"old/b.txt", "/dev/null", [⟨1234567, some 2, 0, some 0, [], [(.minus, ⟨1, false, 7⟩), (.minus, ⟨1, false, 8⟩)]⟩]⟩]
+
+/-- the hypotheses hold of it (`zipAlign`: the first `min m p` lines paired, the others unpaired) … -/
+example : ValidAlign zipAlign ∧ ∀ f ∈ wholeSampleSbs, ∀ h ∈ f.hunks, h.wf := ⟨zipAlign_valid, by decide⟩
+/-- … and what the model computes: buffer size 32 (each subhunk painted as a whole) … -/
+example : (runWholeSbs 32 zipAlign (diffItemsS wholeSampleSbs)).toOption.map (·.map view) =
+    some [.header "src/a.rs" 120, .line (some (some 119, some 120)) 3 "src/a.rs", .line (some (none, none)) 3 "src/a.rs",
+      .line (some (some 120, some 121)) 3 "src/a.rs", .line (some (none, none)) 3 "src/a.rs",
+      .line (some (none, none)) 3 "src/a.rs", .line (some (some 121, none)) 3 "src/a.rs",
+      .header "src/a.rs" 9, .line (some (some 7, some 9)) 2 "src/a.rs", .line (some (none, none)) 2 "src/a.rs",
+      .line (some (none, some 10)) 2 "src/a.rs",
+      .header "old/b.txt" 0, .line (some (some 1234567, none)) 7 "/dev/null", .line (some (some 1234568, none)) 7 "/dev/null"] := by
+  decide
+/-- … and buffer size 1 (the first subhunk is painted in three flushes: other rows, the same numbers in the same order) -/
+example : (runWholeSbs 1 zipAlign (diffItemsS wholeSampleSbs)).toOption.map (·.map view) =
+    some [.header "src/a.rs" 120, .line (some (some 119, some 120)) 3 "src/a.rs", .line (some (none, none)) 3 "src/a.rs",
+      .line (some (some 120, none)) 3 "src/a.rs", .line (some (none, none)) 3 "src/a.rs",
+      .line (some (none, none)) 3 "src/a.rs", .line (some (some 121, none)) 3 "src/a.rs",
+      .line (some (none, some 121)) 3 "src/a.rs",
+      .header "src/a.rs" 9, .line (some (some 7, some 9)) 2 "src/a.rs", .line (some (none, none)) 2 "src/a.rs",
+      .line (some (none, some 10)) 2 "src/a.rs",
+      .header "old/b.txt" 0, .line (some (some 1234567, none)) 7 "/dev/null", .line (some (some 1234568, none)) 7 "/dev/null"] := by
+  decide
+
+/-- `ValidAlign` is needed: an alignment that leaves a line out loses the line (here: the only line of the hunk) -/
+example : (runWholeSbs 32 (fun _ _ => []) [.names "a" "a", .header "@@ -5 +5 @@".toList,
+      .line (some .minus) ⟨1, false, 0⟩]).toOption.map (·.map view) = some [.header "a" 5] := by decide
+/-- `1 ≤ rows` is needed: a removed line said to occupy no display row has no row to show its number on (the left
+    cell of the pair's row stays blank; with 1 row it shows 5) -/
+example : (runWholeSbs 32 zipAlign [.names "a" "a", .header "@@ -5 +5 @@".toList, .line (some .minus) ⟨0, false, 0⟩,
+      .line (some .plus) ⟨2, false, 0⟩]).toOption.map (·.map view) =
+      some [.header "a" 5, .line (some (none, some 5)) 1 "a", .line (some (none, none)) 1 "a"] ∧
+    (runWholeSbs 32 zipAlign [.names "a" "a", .header "@@ -5 +5 @@".toList, .line (some .minus) ⟨1, false, 0⟩,
+      .line (some .plus) ⟨2, false, 0⟩]).toOption.map (·.map view) =
+      some [.header "a" 5, .line (some (some 5, some 5)) 1 "a", .line (some (none, none)) 1 "a"] := by decide
+/- The other hypotheses of `SHunk.wf` are those of `whole_diff_numbers_true` (a hunk has a line; `frag` does not start
+   with `@`) and of `sbs_hunk_numbers_true` (`start + lines + 1 ≤ usize::MAX`: in the row loop the left counter is
+   transiently one ahead of the last removed line — beyond, the checked `+ 1` of the correction panics). -/
+
+end WholeDiffsSbs
 
 -- width of the number fields; coordinates over the whole usize range ------------------------------------
 
